@@ -288,6 +288,30 @@ func checkRemoveFirst(p *Prog, r *Report, pc *panicChecker) {
 				}
 			}
 		}
+		// "the first": the scan that finds the element runs from index 0 upwards
+		if guard {
+			asc := false
+			if _, isCall := s.lo.(*ssa.Call); isCall {
+				asc = true // a first-match helper: decided by firstMatchIndex
+			}
+			for _, hd := range f.Blocks {
+				l := naturalLoop(hd)
+				if l == nil || !l[s.call.Block()] && !func() bool {
+					for _, pb := range s.call.Block().Preds {
+						if l[pb] {
+							return true
+						}
+					}
+					return false
+				}() {
+					continue
+				}
+				if st, sp := inductionOf(s.lo, l); st == 0 && sp == 1 {
+					asc = true
+				}
+			}
+			r.decide(asc, "C19.remove-first", "Remove:scan-ascending", p.pos(s.call.Pos()), "the scan runs from index 0 upwards", "the element to remove is searched from the end (or in another order): with duplicate IDs the element removed is not the first one")
+		}
 		r.decide(guard, "C19.remove-first", "Remove:"+p.describe(s.call), p.pos(s.call.Pos()), "removes exactly the element whose GetID() equals the argument",
 			"the splice does not remove exactly the element whose ID was compared with the argument")
 		// control leaves the function after the splice
